@@ -15,7 +15,9 @@
    - the three layers and the chained lookup of [Options.__getattr__];
    - [read_configuration_file]: key naming and coercion to the type of the default
      (in the shape the table says the source has: [CoerceByType] = [type(old)(value)],
-     [CoerceBoolHelper] = [_str_to_bool] for boolean defaults);
+     [CoerceBoolHelper] = [_str_to_bool] for boolean defaults), and which file it reads when
+     none is passed: the first existing one of a list of candidate paths ([first_existing],
+     [run_home]; the list of the current source is generated too: [rc_candidates]);
    - the jugdir template expansion, the [sys.argv] rewrite, backend selection from
      the jugdir string (backends/select.py).
    The specification ([spec_resolve], [spec_coerce], [str_to_bool]) is defined here
@@ -472,6 +474,55 @@ Definition store_location (T : option_table) (c : cmdline) (cfg : config) (date 
   | OOk [Some (VStr d)] _ => Some (d, backend_of d)
   | _ => None
   end.
+
+(* ------------------------------------------------------------------ which file is "the configuration file"
+   options.parse(args) without an explicit options file (what the [jug] command does):
+   read_configuration_file walks a fixed list of candidate paths under the home directory and
+   reads THE FIRST ONE THAT EXISTS - only that one.  If it exists but cannot be opened (IOError,
+   e.g. a directory) there is no configuration at all; the later candidates are not consulted. *)
+Inductive candidate :=
+| CAbsent                    (* os.path.exists(path) is false *)
+| CUnreadable                (* exists, open() raises IOError *)
+| CFile (cfg : config).      (* a readable file with these entries *)
+
+Definition is_absent (x : candidate) : bool := match x with CAbsent => true | _ => false end.
+
+Fixpoint first_existing (cands : list candidate) : option candidate :=
+  match cands with
+  | [] => None
+  | x :: r => if is_absent x then first_existing r else Some x
+  end.
+
+Definition discovered_config (cands : list candidate) : config :=
+  match first_existing cands with
+  | Some (CFile cfg) => cfg
+  | _ => []
+  end.
+
+(* options.parse(args): the candidates in priority order *)
+Definition run_discovered (T : option_table) (c : cmdline) (cands : list candidate) (date : string)
+           (keys : list string) : outcome :=
+  run T c (discovered_config cands) date keys.
+
+(* a home directory: what is found at each path (not listed = nothing there) *)
+Definition home := list (string * candidate).
+
+Fixpoint home_at (h : home) (p : string) : candidate :=
+  match h with
+  | [] => CAbsent
+  | (q, x) :: r => if String.eqb q p then x else home_at r p
+  end.
+
+Definition candidates_in (paths : list string) (h : home) : list candidate := map (home_at h) paths.
+
+(* [paths] = the candidate list of the source (Gen/OptionTable.v: rc_candidates) *)
+Definition run_home (T : option_table) (c : cmdline) (paths : list string) (h : home) (date : string)
+           (keys : list string) : outcome :=
+  run_discovered T c (candidates_in paths h) date keys.
+
+(* the documented candidates, newest location first (docs/source/configuration.rst, history.rst) *)
+Definition spec_rc_candidates : list string :=
+  ["~/.config/jug/jugrc"; "~/.config/jugrc"; "~/.jug/configrc"].
 
 (* ------------------------------------------------------------------ side conditions on a table (decidable) *)
 Definition const_not_none (e : arg_entry) : bool :=
